@@ -17,7 +17,7 @@ def explore(exe, nthreads, variant, k, gran, budget):
 
     def one(sh):
         try:
-            p = subprocess.run([exe, str(nthreads), str(variant), str(k), str(sh), str(NSH)] + ([gran] if gran == "coarse" else []),
+            p = subprocess.run([exe, str(nthreads), str(variant), str(k), str(sh), str(NSH)] + ([gran] if gran != "full" else []),
                                stdout=subprocess.PIPE, stderr=subprocess.DEVNULL, timeout=budget + 600, start_new_session=True, env=env)
             return p.stdout.decode("latin-1")
         except subprocess.TimeoutExpired as e:
@@ -66,15 +66,22 @@ def run(tier, seed):
     rep = Report(PROP, tier, seed)
     exe, gran = build.sched()
     rep.rule = ("2 and 3 real pthreads, each creating / configuring / assembling on / destroying its own instance (caller buffer or "
-                "internal), run under a cooperative scheduler with scheduling points at every library function entry and exit and "
-                "at every access to the two global index tables; ALL schedules with at most k pre-emptions are enumerated "
+                "internal; body 2: create, assemble 7 kB so that the buffer grows, destroy, create again, assemble, destroy), run "
+                "under a cooperative scheduler with scheduling points from compiler instrumentation: every library function entry "
+                "and exit, every atomic operation, every load/store of writable global data, every mmap/munmap/mremap/"
+                "pthread_once/mutex call ('access' runs keep only the shared-memory operations); ALL schedules with at most k pre-emptions are enumerated "
                 "depth-first (k iterated 0,1,2(,3)); oracle: every thread's return values, offsets, count and bytes equal its "
                 "single-threaded reference, no crash; plus a free-running ThreadSanitizer pass of the same bodies (16 threads). "
                 "distinct_nontrivial = schedules with at least one pre-emption")
     rep.extra["granularity"] = gran
-    plan = [(2, 0, 2, "full"), (2, 1, 2, "full"), (3, 0, 1, "full"), (3, 1, 2, "coarse")] if tier == "quick" else \
+    # (threads, body, pre-emption bound, granularity); "access" = visible operations only (sched.c), which is what makes the
+    # higher bounds and the body with buffer history (2) affordable; "full" keeps points inside stretches that touch no
+    # library global, e.g. around calls into libc functions with hidden static state
+    plan = [(2, 0, 2, "full"), (2, 1, 2, "full"), (3, 0, 1, "full"), (2, 2, 2, "access"), (3, 2, 1, "access"), (2, 0, 3, "access"),
+            (2, 1, 3, "access"), (3, 1, 2, "access")] if tier == "quick" else \
            [(2, 0, 2, "full"), (2, 1, 2, "full"), (3, 0, 2, "full"), (3, 1, 2, "full"), (2, 0, 3, "coarse"), (2, 1, 3, "coarse"),
-            (4, 0, 1, "full")]
+            (4, 0, 1, "full"), (2, 2, 2, "full"), (2, 0, 4, "access"), (2, 1, 4, "access"), (2, 2, 4, "access"), (3, 0, 3, "access"),
+            (3, 1, 3, "access"), (3, 2, 3, "access"), (4, 0, 2, "access"), (4, 2, 2, "access")]
     for n, variant, k, g in plan:
         if rep.expired():
             rep.cut_short("threads=%d variant=%d k=%d not run" % (n, variant, k))
@@ -129,7 +136,7 @@ def replay(r, verbose=False):
     exe, _ = build.sched()
     outs = []
     for _ in range(2):     # replay twice: the same schedule must fail identically
-        p = subprocess.run([exe, str(r["threads"]), str(r["body"]), "replay", r["schedule"]] + (["coarse"] if r.get("gran") == "coarse" else []),
+        p = subprocess.run([exe, str(r["threads"]), str(r["body"]), "replay", r["schedule"]] + ([r["gran"]] if r.get("gran", "full") != "full" else []),
                            stdout=subprocess.PIPE, stderr=subprocess.DEVNULL)
         outs.append(p.stdout.decode("latin-1"))
     if verbose:
